@@ -28,7 +28,7 @@ ASSUMPTIONS = [
   "UpblkCyclicError is raised only after SimpleSchedulePass.dump_dag, which needs xdg-open; the harness replaces "
   "dump_dag by a no-op (no repo file touched)",
 ]
-QUICK_S = 80
+QUICK_S = 240
 THOROUGH_S = 1200
 
 
